@@ -327,9 +327,11 @@ def ansSerFrom (text : Bytes) : String :=
       | .err _ => "err"
       | .panic => "panic")
     | _ => "nostr"
+  -- 4th column: `deserialize_in_place` (into an occupied slot, and as an element of a Vec deserialised in place) gives what
+  -- `deserialize` gives: the model has one deserialiser
   match w with
-  | .invalid => s!"{r} | badjson | {p}"
-  | _ => s!"{r} | {r} | {p}"
+  | .invalid => s!"{r} | badjson | {p} | same"
+  | _ => s!"{r} | {r} | {p} | same"
 
 def ansSerTo (v : Bytes) : String :=
   match LangId.fromBytes v with
